@@ -146,7 +146,7 @@ PROPS = {
     "C06": {
         "lean": ["ZenoModel.Props.C06"],
         "theorems": ["regroup_is_reaggregation", "regroup_value", "regroup_order_irrelevant", "bucket_contains",
-                     "buckets_partition", "subMerge_targets_bucket", "spec_bucket_is_outPeriod"],
+                     "buckets_partition", "subMerge_targets_bucket", "subMerge_loop_exactly_once", "spec_bucket_is_outPeriod"],
         "engines": [
             {"name": "query", "n_quick": 120, "n_thorough": 12000, "n_search": 240, "shards": 6, "shards_thorough": 16,
              "timeout_quick": 600, "timeout_thorough": 5400},
